@@ -1,5 +1,82 @@
+import Casket.Model.Load
+import Casket.Spec.Load
 import Driver.Proto
-/- Streams of C08 (stub: not built yet). -/
+/-
+Streams of C08.
+  c08.seq  op1 op2 …     L:<kind> | V:<kind> | X      (kinds: harness/streams/c08.go)
+     out = step|step|…   step = <res>;ls=<l1>.<l2>;hk=<hooks>;s1=<probe>;s2=<probe>
+  Port 3 is held by a foreign listener in every case.
+-/
 namespace Driver.C08
-def streams : List Driver.Stream := []
+open Casket.Load
+
+def busy : List Nat := [3]
+
+def kindCfg : String → Option Cfg
+  | "A1" => some ⟨[⟨1, "A"⟩], 0, .none⟩
+  | "B12" => some ⟨[⟨1, "B"⟩, ⟨2, "B"⟩], 0, .none⟩
+  | "C2" => some ⟨[⟨2, "C"⟩], 0, .none⟩
+  | "H1" => some ⟨[⟨1, "H"⟩], 1, .none⟩
+  | "HH12" => some ⟨[⟨1, "H"⟩, ⟨2, "H"⟩], 2, .none⟩
+  | "syn" => some ⟨[⟨1, "A"⟩], 0, .parse⟩
+  | "unk" => some ⟨[⟨1, "A"⟩], 0, .parse⟩
+  | "imp" => some ⟨[⟨1, "A"⟩], 0, .parse⟩
+  | "argE" => some ⟨[⟨1, "H"⟩], 1, .setupEarly⟩
+  | "tlsM" => some ⟨[⟨1, "A"⟩], 1, .setupEarly⟩
+  | "argL" => some ⟨[⟨1, "H"⟩], 1, .setupLate⟩
+  | "logE" => some ⟨[⟨1, "H"⟩], 1, .startup⟩
+  | "busy3" => some ⟨[⟨3, "A"⟩], 0, .none⟩
+  | "leak13" => some ⟨[⟨1, "A"⟩, ⟨3, "A"⟩], 1, .none⟩
+  | "leak123" => some ⟨[⟨1, "B"⟩, ⟨2, "B"⟩, ⟨3, "B"⟩], 0, .none⟩
+  | _ => none
+
+def parseOp (s : String) : Option Op :=
+  if s.startsWith "L:" then (kindCfg (s.drop 2).toString).map .load
+  else if s.startsWith "V:" then (kindCfg (s.drop 2).toString).map .validate
+  else if s = "X" then some .stop
+  else none
+
+def showRes : Res → String
+  | .ok => "ok" | .err => "err"
+
+def showStep (x : Res × Obs) : String :=
+  s!"{showRes x.1};ls={x.2.l1}.{x.2.l2};hk={x.2.hooks};s1={x.2.s1};s2={x.2.s2}"
+
+def seqModel (f : List String) : String :=
+  match f.mapM parseOp with
+  | none => "bad-case"
+  | some ops => "|".intercalate ((run busy ops).map showStep)
+
+def parseRes : String → Option (Option Res)
+  | "ok" => some (some .ok) | "err" => some (some .err) | "timeout" => some none
+  | _ => none
+
+def stripPrefix (p s : String) : Option String :=
+  if s.startsWith p then some (s.drop p.length).toString else none
+
+def parseStep (s : String) : Option (Option Res × Obs) :=
+  match s.splitOn ";" with
+  | [r, ls, hk, s1, s2] => do
+    let r ← parseRes r
+    let ls ← stripPrefix "ls=" ls
+    let hk ← (← stripPrefix "hk=" hk).toNat?
+    let s1 ← stripPrefix "s1=" s1
+    let s2 ← stripPrefix "s2=" s2
+    match ls.splitOn "." with
+    | [a, b] => pure (r, { l1 := ← a.toNat?, l2 := ← b.toNat?, hooks := hk, s1 := s1, s2 := s2 })
+    | _ => none
+  | _ => none
+
+def seqJudge (f : List String) (out : String) : String :=
+  match f.mapM parseOp with
+  | none => if out = "bad-case" then "ok" else "bad:malformed-case-accepted:" ++ out
+  | some ops =>
+    match (out.splitOn "|").mapM parseStep with
+    | none => "bad:unparsable:" ++ out
+    | some steps => Casket.LoadSpec.verdict busy ops steps
+
+def streams : List Driver.Stream := [
+  { name := "c08.seq", model := seqModel, judge := seqJudge }
+]
+
 end Driver.C08
